@@ -63,6 +63,7 @@ THEOREMS = [
     "Pyribs.C09.nonvacuous",
     "Pyribs.C09.nonvacuous_same_lib",
     "Pyribs.C09.unseeded_site_interferes",
+    "Pyribs.C09.spawn_check_sensitive",
 ]
 TECHNIQUE = ("Lean 4 proof of non-interference over an abstract trace/program semantics of random sites + "
              "AST translator regenerating the site table on every run (decide over the generated table) + "
@@ -530,7 +531,8 @@ def has_pycma(case):
     return any(e.get("es") == "pycma_es" for e in case["emitters"])
 
 
-def run_case(case, ctx=None, fresh_process=False):
+def run_case(case, ctx=None):
+    fresh_process = bool(case.get("fresh"))
     cnt = (lambda k: ctx.count(k)) if ctx is not None else (lambda k: None)
     what = describe(case)
     oa, _, _ = run_pipeline(case, "a")
@@ -626,6 +628,9 @@ def fresh_process_resume(case, oa):
     res = json.loads(line[len("C09RESUME "):])
     if res["disturbed"]:
         return f"global random state disturbed by {res['disturbed']} (fresh-process resumption)"
+    if res["error"]:
+        return (f"pipeline pickled before iteration {start} cannot be resumed in a fresh process: "
+                f"{res['error'].split(':')[0]}")
     want = {x[0]: (list(map(str, x[1])), x[2]) for x in oa.items}
     for label, dg, ex in res["items"]:
         if label not in want:
@@ -846,8 +851,11 @@ def signature(case, fail, final=False):
     if not final:
         return (label, arch, ems)
     # on minimised cases: the archive matters only for construction-time symptoms, the emitters for the others
+    label = re.sub(r" \((first|second|pickled|changed-seed) run\)", "", label)
     if "centroids" in label or "archive constructor" in label:
         return (label, arch, None)
+    if "global random state disturbed" in label:
+        return (label, None, None)
     return (label, None, tuple(sorted({e["kind"] + "/" + str(e.get("es", "")) for e in case["emitters"]})))
 
 
@@ -907,11 +915,11 @@ def run(ctx):
 
         def runner(case):
             seen[0] += 1
-            fresh = False
-            if n_fresh[0] > 0 and "shrunk_from" not in case and not has_pycma(case) and seen[0] % 7 == 3:
-                fresh = True
+            if n_fresh[0] > 0 and "fresh" not in case and "case_index" in case and not has_pycma(case) \
+                    and seen[0] % 7 == 3:
+                case["fresh"] = True  # (ii) additionally resumes this case in a fresh interpreter
                 n_fresh[0] -= 1
-            f = run_case(case, ctx, fresh_process=fresh)
+            f = run_case(case, ctx)
             if f is not None:
                 # report each distinct failure once (same archive kind / centroid method / failing observable)
                 owner = seen_sigs.setdefault(signature(case, f), case_id(case))
@@ -969,7 +977,7 @@ def run(ctx):
         ctx.notes.append(f"warning: {rejected} of {ctx.evaluations} generated pipelines were rejected by pyribs")
     uniq, kept = set(), []
     for f, c in ctx.failures:
-        sig = signature(c, f, final=True)
+        sig = signature(c, f, final=True) if "archive" in c else ("site-table",)
         if sig in uniq:
             ctx.count("duplicate-failure-suppressed")
             continue
@@ -1006,7 +1014,7 @@ def replay(ctx, case):
             return Failure("corr", "regenerated site table breaks " + site_table_summary(ctx))
         return None
     case = {k: v for k, v in case.items() if not k.startswith("_")}
-    return run_case(case, ctx, fresh_process=False)
+    return run_case(case, ctx)
 
 
 if __name__ == "__main__":
